@@ -75,6 +75,12 @@ def make(p):
         y, yv = f(X), f(Xv)
         y[:K] = torch.arange(K)
         yv[:K] = torch.arange(K)
+    if p.get('offsets'):
+        # features in raw units (a year, a weight in grams): large offsets make the split thresholds large compared with the spread of
+        # the projections, so anything relative to a threshold's magnitude is far from "within rounding distance"
+        off = torch.zeros(dd)
+        off[:2] = torch.tensor([2000.0, 750.0])[: min(2, dd)]
+        X, Xv, Q = X + off, Xv + off, Q + off
     kname, kw = p['kernel']
     model = {'kernel': kname, 'bandwidth': p['bandwidth'], 'exponent': p['q'], 'diag': p['diag'],
              'bandwidth_mode': 'adaptive' if (p['adaptive'] and kname != 'sum_power_laplace') else 'constant'}
@@ -425,6 +431,12 @@ def gen_cases(run):
         cases.append(dict(family='fitted-models', task=task, mode=mode, kernel=list(KERNELS[k]), q=1.0, diag=False, adaptive=False,
                           bandwidth=5.0, iters=1, L=10 ** 6, n=60, d=3, method='random', trees=3, f=0.0, outputs=2, classes=3,
                           exact=False, dseed=r.randint(0, 10 ** 6)))
+    # features in raw units (large offsets: thresholds of the order 10^3 with projections spread over a few units)
+    for k in range(3 if run.tier == 'quick' else 12):
+        cases.append(dict(family='fitted-models', task=['reg', 'class', 'reg'][k % 3], mode='zero_one', kernel=list(('l1', {})), q=1.0, diag=bool(k % 2),
+                          adaptive=False, bandwidth=5.0, iters=k % 2, L=[24, 40, 16][k % 3], n=r.choice([150, 200]), d=r.randint(2, 4),
+                          method=['pca', 'random', 'top_vector_agop_on_subset'][k % 3], trees=1 + k % 2, f=0.0, outputs=1, classes=2, exact=False,
+                          offsets=True, dseed=r.randint(0, 10 ** 6)))
     # mixed numerical / one-hot data with the categorical fast path of the leaf kernels (full feature matrix, >= 1 iteration)
     # every (p, q) regime of the Lp/Lq kernel has its own branch on that path: p = 1 (no root), p = 2, and q != 1
     cat_kernels = [(('l2', {}), 1.0), (('l1', {}), 1.0), (('lpq', {'norm_p': 1.5}), 1.0), (('lpq', {'norm_p': 1.0}), 0.7),
